@@ -97,6 +97,7 @@ def generate(run_seed, index, tier):
     use_rand = cfg_r.random() < 0.35
     use_wipe = cfg_r.random() < 0.3
     use_reject = cfg_r.random() < 0.2
+    use_clone = cfg_r.random() < 0.25
     p_append = cfg_r.choice([0.3, 0.5, 0.7, 0.85])
     qweights = [(k, cfg_r.choice([0, 1, 1, 2, 4])) for k in QUERY_KINDS]
     if sum(w for _, w in qweights) == 0:
@@ -110,7 +111,7 @@ def generate(run_seed, index, tier):
     if stratified:
         word = SHAPE_WORDS[index % len(SHAPE_WORDS)]
         if index < len(SHAPE_WORDS):  # the plainest stratum: one circuit, no faults, default caches
-            two, lru, fault_rate, use_rand, use_wipe, use_reject = False, None, 0.0, False, False, False
+            two, lru, fault_rate, use_rand, use_wipe, use_reject, use_clone = False, None, 0.0, False, False, False, False
     elif cfg_r.random() < 0.04:
         # closure walk: a long random walk on the 1/2-qubit Clifford group with a tableau query after every gate
         nmax = cfg_r.choice([1, 2, 2, 2])
@@ -139,9 +140,14 @@ def generate(run_seed, index, tier):
         if r > 0.95:
             return {'op': 'ident', 'c': c, 'q': [prog_r.randrange(nmax + 2)]}
         g = prog_r.choice(gates)
+        extra = {}
+        if prog_r.random() < 0.1:
+            extra['npint'] = True
+        if g == 'CX' and prog_r.random() < 0.3:
+            extra['alias'] = True
         if g in TWO:
-            return {'op': 'append', 'c': c, 'g': g, 'q': prog_r.sample(range(nmax), 2)}
-        return {'op': 'append', 'c': c, 'g': g, 'q': [prog_r.randrange(nmax)]}
+            return dict({'op': 'append', 'c': c, 'g': g, 'q': prog_r.sample(range(nmax), 2)}, **extra)
+        return dict({'op': 'append', 'c': c, 'g': g, 'q': [prog_r.randrange(nmax)]}, **extra)
 
     def mk_query(c):
         k = srng.weighted(prog_r, qweights)
@@ -160,6 +166,8 @@ def generate(run_seed, index, tier):
         c = 1 if (two and prog_r.random() < 0.4) else 0
         if use_wipe and prog_r.random() < 0.1:
             ops.append({'op': 'wipe'})
+        if use_clone and prog_r.random() < 0.12:
+            ops.append({'op': 'clone', 'c': c, 'how': prog_r.choice(['deepcopy', 'pickle'])})
         if use_reject and prog_r.random() < 0.1:
             ops.append({'op': 'reject', 'c': c, 'kind': prog_r.choice(['neg', 'same']), 'g': prog_r.choice(SINGLE + TWO)})
         o = mk_append(c) if ch == 'a' else mk_query(c)
@@ -355,6 +363,17 @@ class Sim:
         key = trace.digest((R, S))
         self.cover['tab1' if n == 1 else ('tab2' if n == 2 else 'tab3p')].add(f'{n}:{key}' if n > 2 else key)
 
+    def _pickle_roundtrip(self, circ):
+        import pickle
+        rng = circ.np_rng
+        circ.np_rng = None  # the scripted generator is harness-owned; everything else of the object goes through pickle
+        try:
+            new = pickle.loads(pickle.dumps(circ))
+        finally:
+            circ.np_rng = rng
+        new.np_rng = rng
+        return new
+
     def valid_tableau(self, val):
         if not (isinstance(val, tuple) and len(val) == 2):
             raise Violation('conjugation', 'to_symplectic_form', f'expected a pair (r, S), got {type(val).__name__}')
@@ -543,7 +562,9 @@ class Sim:
                 name, q = op['g'], list(op['q'])
                 if len(q) == 2 and q[0] == q[1]:
                     return
-                st, _ = self.call(world, op, lambda x: getattr(x, name)(*q), circ, name)
+                mname = 'CNOT' if (name == 'CX' and op.get('alias')) else name
+                qq = [np.int64(v) for v in q] if op.get('npint') else q
+                st, _ = self.call(world, op, lambda x: getattr(x, mname)(*qq), circ, name)
                 branches = [(name, *q)]
             elif kind == 'ident':
                 q = list(op['q'])
@@ -591,6 +612,17 @@ class Sim:
             if self.last_kind.get(c) == 'q':
                 self.seen_q_then_a[c] = True
             self.last_kind[c] = 'a'
+            return
+        if kind == 'clone':
+            # continue with a deep copy (or a pickle round trip) of the circuit object: the copy must carry the whole history
+            import pickle
+            try:
+                self.circ[c] = copy.deepcopy(circ) if op.get('how', 'deepcopy') == 'deepcopy' else self._pickle_roundtrip(circ)
+            except Exception as e:
+                raise Violation('unexpected_exception', 'copy', f'{type(e).__name__}: {e}')
+            self.bump('clones')
+            self.log.add('clone', c, op.get('how', 'deepcopy'))
+            self.shape.append('k')
             return
         if kind == 'reject':
             self.do_reject(world, op, c, circ)
